@@ -114,7 +114,24 @@ def run(repo: Repo, rep: Report, tier: str) -> None:
               "; ".join(a[:70] for a in alts), lsw.loc(mwc[0]))
     inplace = [n for n in walk_local(lsw.node) if isinstance(n, ast.Assign) and isinstance(n.targets[0], ast.Attribute) and n.targets[0].attr in ("signal_type", "output_type") and norm(n.value) == q]
     # exactly the decider class: a decider made for the condition is unnamed; an arithmetic node can be a named value that is read again under its own type
-    okp = len(inplace) >= 2 and all(any(pol and re.fullmatch(r"isinstance\(.+, IRDecider\)", t) for t, pol in cguards(lsw, n)) for n in inplace)
+    from ..core import parents_map as _pm2f
+    pm2 = _pm2f(lsw.node)
+    def _conj2(n):
+        cur = n
+        while cur in pm2 and not isinstance(pm2[cur], ast.If):
+            cur = pm2[cur]
+        iff = pm2.get(cur)
+        if not isinstance(iff, ast.If):
+            return []
+        return list(iff.test.values) if isinstance(iff.test, ast.BoolOp) and isinstance(iff.test.op, ast.And) else [iff.test]
+    def _is_decider_test(c):
+        return isinstance(c, ast.Call) and call_name(c) == "isinstance" and len(c.args) == 2 and norm(c.args[1]) == "IRDecider"
+    okp = len(inplace) >= 2 and all(any(_is_decider_test(c) for c in _conj2(n)) for n in inplace)
+    # ... and only a decider that outputs a constant: one that passes a value through copies the input count of its *output* signal, so renamed to the enable signal it
+    # copies an enable-signal input that does not exist and the cell is never written
+    okc = bool(inplace) and all(any(isinstance(c, ast.UnaryOp) and isinstance(c.op, ast.Not) and norm(c.operand).endswith(".copy_count_from_input") for c in _conj2(n)) for n in inplace)
+    rep.check(okc, "C03-R2", "a pass-through gate used as the enable is projected, not renamed", "in-place retyping excludes copy-count deciders" if okc else
+              "`when=(c > 0) : x` renames the gate's output to the enable signal while the gate still copies the input count of that signal: the enable never arrives", lsw.loc(inplace[0]) if inplace else lsw.loc())
     rep.check(okp, "C03-R2", "a decider-valued enable is retyped in place (node output type and reference type) to the enable signal", "; ".join(clw.text(n.targets[0])[:60] for n in inplace), lsw.loc(inplace[0]) if inplace else lsw.loc())
     proj = [n for n in walk_local(lsw.node) if isinstance(n, ast.Assign) and isinstance(n.value, ast.Call) and call_name(n.value) == "arithmetic" and q in norm(n.value)]
     okj = bool(proj) and any(t.endswith(f".signal_type != {q}") and pol for t, pol in cguards_any(lsw, proj[0]))
